@@ -168,13 +168,52 @@ def expectedCopyCalls : List SrcFact := [
   ⟨"encoder.go", "Encoder.alwaysAnyBytes", "copy(enc.buffer[lengthStart + bytesForSize:], enc.buffer[messageStart:])"⟩,
   ⟨"encoder.go", "Encoder.anyBytes", "copy(enc.buffer[lengthStart + bytesForSize:], enc.buffer[messageStart:])"⟩ ]
 
-/-- TIE (C04, C17): every store through a parameter or receiver in the runtime packages is one the
-model accounts for — encoders store only into their own buffer (never through the value pointer
-`v` or the message), decoders store only into their own cursor, the output variables and
-`*out`; nothing stores into the input slice (`dec.buffer[i] = …` / `copy(dec.buffer, …)` do not
-occur); the only `copy` calls are the two inside the encoder's own buffer -/
-theorem stores_are_the_modelled_ones :
-    Gen.paramStores = expectedParamStores ∧ Gen.copyCalls = expectedCopyCalls := by
+/-- the store policy the properties need, as a check on one extracted store: encoders store only into
+their own `buffer` field (never through the value pointer `v`, the message or an element of a
+caller's slice); decoders store only into their own cursor fields and through the output pointers
+`v` / `out` (never into an element of the input slice); the error field is only written by `fail`;
+`PutUvarint` writes the window it is handed; the picoconv and map decoders store through their
+receiver only in `PicoDecode` (aggregated rows `*` of the generated files). -/
+def isSuf (suf s : String) : Bool := suf.toList.isSuffixOf s.toList
+def isPre (pre s : String) : Bool := pre.toList.isPrefixOf s.toList
+def hasSubL (sub : List Char) : List Char → Bool
+  | [] => sub.isEmpty
+  | c :: cs => sub.isPrefixOf (c :: cs) || hasSubL sub cs
+def hasSub (sub s : String) : Bool := hasSubL sub.toList s.toList
+
+def storeAllowed (f : SrcFact) : Bool :=
+  let elem := hasSub "[]" f.what
+  if f.file == "encoder.go" || f.file == "encoder_types.go" then
+    isSuf ".buffer" f.what && !elem
+  else if f.file == "decoder.go" || f.file == "decoder_types.go" then
+    !elem && (f.what == "out*" || f.what == "v*" ||
+      (isSuf ".err" f.what && (f.fn == "Decoder.fail")) ||
+      [".init", ".pendingField", ".pendingWire", ".buffer", ".messageDecodeState", ".stack"].any (isSuf · f.what))
+  else if f.file == "internal/protowire/stdlib.go" then f.fn == "PutUvarint" && f.what == "buf[]"
+  else if f.file == "picoconv/duration.go" then f.fn == "Duration.PicoDecode" && f.what == "d*"
+  else if f.file == "picoconv/timestamp.go" then f.fn == "Timestamp.PicoDecode" && f.what == "t*"
+  else if f.file == "picowire/map.go" then f.fn == "*" && (f.what == "m*" || f.what == "m*[]")
+  else false
+
+/-- a `copy` call is allowed when it moves bytes inside the encoder's own buffer -/
+def copyAllowed (f : SrcFact) : Bool :=
+  f.file == "encoder.go" && isPre "copy(enc.buffer[" f.what && hasSub ", enc.buffer[" f.what
+
+def storesOK (ps cs : List SrcFact) : Bool := ps.all storeAllowed && cs.all copyAllowed
+
+/-- the table as it stands in the pinned tree satisfies the policy, and the policy rejects a store
+through a writer's value pointer, an element store into the decoder's input, a cleared error -/
+example : storesOK expectedParamStores expectedCopyCalls = true := by decide +kernel
+example : storeAllowed ⟨"encoder_types.go", "*", "v*"⟩ = false := by decide
+example : storeAllowed ⟨"decoder.go", "Decoder.nextField", "dec.buffer[]"⟩ = false := by decide
+example : storeAllowed ⟨"decoder.go", "Decoder.nextField", "dec.err"⟩ = false := by decide
+example : storeAllowed ⟨"picoconv/duration.go", "Duration.PicoEncode", "d*"⟩ = false := by decide
+
+/-- TIE (C04, C16, C17): every store through a parameter or receiver in the runtime packages, and
+every `copy` call, as extracted from the working tree on this run, satisfies the store policy
+(`storeAllowed`, `copyAllowed`). The exact table of the pinned tree is `expectedParamStores`; a
+refactoring that moves a store into a helper changes the table but not the policy. -/
+theorem stores_are_the_modelled_ones : storesOK Gen.paramStores Gen.copyCalls = true := by
   decide +kernel
 
 /-! ### import graph (C07) -/
